@@ -307,7 +307,13 @@ func (g *g17) lineOp(c int) {
 	case 0:
 		g.emit("%sput %d %d %d", pre, c, k, 1+g.r.Intn(50))
 	case 1:
-		g.emit("%sget %d %d", pre, c, k)
+		if g.svc && k != 0 && g.r.Intn(3) == 0 {
+			g.emit("scan %d", c) // by handle: activity like a get (the line contains no "get": see below)
+			k = 99
+			g.lines[len(g.lines)-1] += "" // (kept for clarity)
+		} else {
+			g.emit("%sget %d %d", pre, c, k)
+		}
 	case 2:
 		g.emit("%sdel %d %d", pre, c, k)
 	}
@@ -315,7 +321,8 @@ func (g *g17) lineOp(c int) {
 	if ok {
 		o := g.objs[b]
 		reach := o.active && (pre == "o" || o.registered)
-		if g.svc && (k == 0 || (o.ro && !strings.Contains(g.lines[len(g.lines)-1], "get"))) {
+		last := g.lines[len(g.lines)-1]
+		if g.svc && (k == 0 || (o.ro && !strings.Contains(last, "get") && !strings.HasPrefix(last, "scan"))) {
 			reach = false
 		}
 		if reach {
